@@ -20,6 +20,7 @@ RULE = (
     "outcome is a violation. Non-trivial = sparse registry (count != max id) or a boundary id 253-255 present; distinct = distinct case JSON."
     ' Round 5: version None included; `save`/`reload` of the registry between requests.'
     ' Round 6: traffic of unknown nodes 250-255; `tick` ops advance a fake process clock (time.monotonic/time.time) by seconds to months.'
+    ' Round 7: `hang_answers` (answer on the wire, write stalls, listener cancelled); `remove` ops (the application decommissions nodes).'
 )
 ASSUMPTIONS = ["the allocation policy itself is not fixed by the statement: any fresh id in 1..254 is accepted"]
 DELETABLE = ("ops", "fail_answers")
@@ -47,6 +48,8 @@ def _ops():
         st.just("255;255;3;0;3;\n"),
         st.just("255;255;3;0;3;\n"),
         st.builds(lambda n, c, a, p: f"{n};{c};3;{a};3;{p}\n", st.sampled_from((0, 1, 7, 254, 255)), st.sampled_from((0, 7, 255)), st.sampled_from((0, 1)), st.sampled_from(("", "x"))),
+        # the request's payload is free text for the node to fill: numbers that look like ids, odd spellings
+        st.builds(lambda p: f"255;255;3;0;3;{p}\n", st.one_of(st.sampled_from(("0", "1", "2", "3", "7", "253", "254", "255", "256", "-1", " 5", "5 ", "1.0", "٣", "0x5", "1;2")), st.integers(0, 260).map(str))),
     )
     present = st.builds(lambda n: f"{n};255;0;0;17;2.0\n", st.one_of(st.integers(0, 255), st.sampled_from((250, 253, 254, 255))))
     install = st.one_of(st.integers(1, 254), st.sampled_from((2, 3, 5, 200, 253, 254))).map(lambda i: ["install", i])
@@ -93,6 +96,16 @@ def enumerate_cases(tier: str):
             for strangers in ([top + 1], [top + 1, top + 2], [254], [255], [254, 255]):
                 ops = [["rx", f"{n};1;0;0;6;child\n"] for n in strangers if n <= 255] + [["rx", "255;255;3;0;3;\n"]] * 3
                 yield {"version": version, "ids": list(range(1, top + 1)), "install": "direct", "ops": ops, "listen_mode": "persistent"}
+    # the request carries a number in its payload (a node suggesting an id?): allocation does not depend on it
+    for version in (None, "1.5", "2.2"):
+        for ids in ([1, 2, 7], list(range(1, 255)), [0, 254], []):
+            for text in ("7", "1", "254", "255", "0", "2", "300", "-1", "007"):
+                ops = [["rx", f"255;255;3;0;3;{text}\n"], ["rx", f"255;255;3;1;3;{text}\n"], ["rx", "255;255;3;0;3;\n"]]
+                yield {"version": version, "ids": ids, "install": "direct", "ops": ops, "listen_mode": "fresh"}
+    # two gateways in one process: while one's answer is still being written, the other allocates from its own registry
+    for version in ("1.4", "2.2"):
+        for ids_a, ids_b in (([*range(1, 254)], [1, 2]), ([*range(0, 254)], []), ([5], [*range(1, 250)]), ([*range(1, 253)], [*range(1, 253)])):
+            yield {"kind": "two-gateways", "version": version, "ids_a": ids_a, "ids_b": ids_b}
     # the answer's write stalls after the bytes went out and the listener is cancelled by the application's timeout
     for version in (None, "1.4", "2.2"):
         for hangs in ([0], [1], [0, 1]):
@@ -174,7 +187,65 @@ def _run_concurrent(case: dict) -> Outcome:
     return Outcome(ok=True, nontrivial=True, classes=classes)
 
 
+def _run_two_gateways(case: dict) -> Outcome:
+    """Gateway A's id answer is held in its transport's write while gateway B (another network, same process) gets a request."""
+    import asyncio
+
+    classes = ("two-gateways", f"version={case['version']}")
+
+    class Held(env.RecordingTransport):
+        def __init__(self) -> None:
+            super().__init__()
+            self.gate: asyncio.Event | None = None
+            self.entered = asyncio.Event()
+
+        async def write(self, decoded_message: str) -> None:
+            if self.gate is not None and drive.IDRESP.match(decoded_message):
+                self.entered.set()
+                await self.gate.wait()
+            await super().write(decoded_message)
+
+    async def go() -> Outcome | None:
+        held = Held()
+        held.gate = asyncio.Event()
+        gw_a, _ = env.make_gateway(case["version"], transport=held)
+        gw_b, t_b = env.make_gateway(case["version"])
+        env.install_registry(gw_a.nodes, {str(i): {} for i in case["ids_a"]})
+        env.install_registry(gw_b.nodes, {str(i): {} for i in case["ids_b"]})
+        task_a = asyncio.ensure_future(env.rx(gw_a, "255;255;3;0;3;\n"))
+        try:
+            await asyncio.wait_for(held.entered.wait(), 5)
+            a_holding = True
+        except asyncio.TimeoutError:
+            a_holding = False  # (A had nothing to hand out: its request failed or wrote nothing)
+        before = set(gw_b.nodes)
+        status, value = await env.rx(gw_b, "255;255;3;0;3;\n")
+        held.gate.set()
+        await task_a
+        highest = max(before) if before else 0
+        answers = [drive.IDRESP.match(w) for _s, w in t_b.writes]
+        answers = [int(m.group(3)) for m in answers if m]
+        where = f"gateway B (registry {sorted(before)[:4]}{'...' if len(before) > 4 else ''}, highest {highest}) while gateway A's answer was {'in flight' if a_holding else 'not pending'}"
+        if status == "leak":
+            return fail(f"leak:{env.exc_sig(value)}", f"{where}: {value!r}")
+        if status == "liberr":
+            if highest + 1 <= 254:
+                return fail("id-refused-while-free", f"{where}: {value!r} although id {highest + 1} is free")
+            return None
+        if len(answers) != 1 or not 1 <= answers[0] <= 254 or answers[0] in before or answers[0] not in gw_b.nodes:
+            return fail("two-gateways:bad-answer", f"{where}: answers {answers!r}")
+        return None
+
+    bad = env.run(go())
+    if bad is not None:
+        bad.classes = classes
+        return bad
+    return Outcome(ok=True, nontrivial=True, classes=classes)
+
+
 def run_case(case: dict) -> Outcome:
+    if case.get("kind") == "two-gateways":
+        return _run_two_gateways(case)
     if case.get("kind") == "concurrent":
         return _run_concurrent(case)
     ids = sorted(set(case["ids"]))
